@@ -118,18 +118,27 @@ def jobs(tier, seed=0):
         A(lambda Bb=Bb, H=H, f=f, sw=sw, dv=dv, tag=tag:
           L.depacketizer_inst("Depacketizer/" + tag, Bb, H, f, sw, dv))
         if comp:
-            A(lambda Bb=Bb, H=H, f=f, sw=sw, dv=dv, hv=hv, tag=tag:
+            # quick tier: unaligned composites see only two different beats on an invalid sink (state blow-up of
+            # the two sink_d registers); the full garbage alphabet runs in the thorough tier
+            ig = not (quick and H % Bb != 0 and H > Bb)
+            A(lambda Bb=Bb, H=H, f=f, sw=sw, dv=dv, hv=hv, tag=tag, ig=ig:
               L.pkdpk_inst("Packetizer>Depacketizer/" + tag, Bb, H, f, sw, dv[:2] if Bb == 1 else [dv[1], dv[2]],
-                           hv[:2]))
+                           hv[:2], idle_garbage=ig))
     # ---- PacketFIFO ---------------------------------------------------------------------------------------
     # tokens (data, param, last).  T4 distinguishes data, param and last; T2 exercises the occupancy logic only
     # (every stored word of a deeper FIFO multiplies the implementation states by the number of token values)
     T4 = [(0, 0, 0), (1, 1, 0), (0, 1, 1), (1, 0, 1)]
     T2 = [(0, 0, 0), (1, 1, 1)]
-    A(lambda: L.packetfifo_inst("PacketFIFO(2)", 2, tokens=T4))
+    T3 = [(0, 0, 0), (1, 0, 1), (0, 1, 1)]
+    A(lambda: L.packetfifo_inst("PacketFIFO(2)", 2, tokens=T3 if quick else T4))
     A(lambda: L.packetfifo_inst("PacketFIFO(3)/T2", 3, tokens=T2))
     A(lambda: L.packetfifo_inst("PacketFIFO(4,param_depth=1)/T2", 4, 1, tokens=T2))
+    A(lambda: L.packetfifo_inst("PacketFIFO(2,buffered)", 2, buffered=True, tokens=T2 if quick else T3))
+    B(lambda: L.packetfifo_inst("PacketFIFO(8,buffered)/8b", 8, buffered=True, dwid=8, pwid=8, alphabet=False))
     if not quick:
+        A(lambda: L.packetfifo_inst("PacketFIFO(3,param_depth=1,buffered)/T2", 3, 1, buffered=True, tokens=T2))
+        B(lambda: L.packetfifo_inst("PacketFIFO(16,2,buffered)/8b", 16, 2, buffered=True, dwid=8, pwid=8,
+                                    alphabet=False))
         A(lambda: L.packetfifo_inst("PacketFIFO(2)/alltokens", 2))
         A(lambda: L.packetfifo_inst("PacketFIFO(3)", 3, tokens=T4))
         A(lambda: L.packetfifo_inst("PacketFIFO(4)/T2", 4, tokens=T2))
@@ -296,7 +305,22 @@ def header_tie(ctx, ntables):
     return dis
 
 
+ASSUMPTIONS = [
+    "Packetizer / round-trip theorems: the producer obeys the stream contract (a beat offered and not accepted is "
+    "offered again unchanged); nothing is assumed about source.ready or about the lines while valid = 0",
+    "Packetizer / Depacketizer / round-trip theorems are proved for headers that are a whole number of beats "
+    "(H % B = 0, every data width and header length); the unaligned machines are modelled and compared with the "
+    "code exhaustively (small instances) and by monitored random runs, their residue theorem is open",
+    "header_roundtrip needs non-overlapping fields and, with swap_field_bytes, field widths <= 8 or multiples of 8 "
+    "(finding C16-header-swap-odd-width); fields reaching beyond the header length and the _lsb/_msb name "
+    "convention of Header.get_field are not modelled",
+    "PacketFIFO is modelled for payload_depth >= 2 (Migen SyncFIFO); Arbiter for >= 2 masters, Dispatcher for >= 2 "
+    "slaves or one_hot (the other cases are plain Endpoint.connect)",
+]
+
+
 def correspond(ctx):
+    ctx.assumptions = ASSUMPTIONS
     dis = []
     for d in corpus_replay(ctx):
         dis.append(d)
